@@ -250,6 +250,14 @@ def gen_header_text(rng, corrupt=0.3):
     c["qend"] = rng.randint(0, c["qsize"]); c["qstart"] = rng.randint(0, c["qend"])
     if rng.random() < 0.2:
         c["tsize"] = c["tend"] = U64
+    if corrupt > 0 and rng.random() < 0.25:
+        # boundary headers: end around size, size+start; start around 0, size (accepted iff start <= end <= size on both sides)
+        for side in "tq":
+            size = rng.choice([0, 1, 5, 100, U64 - 1, U64])
+            start = rng.choice([0, 1, size // 2, size])
+            end = rng.choice([start, max(size - 1, 0), size, size + 1, size + start, size + start + 1, max(start - 1, 0)])
+            c[side + "size"], c[side + "start"], c[side + "end"] = size, min(start, U64), min(end, U64)
+        return gen.header_line(c).encode("utf-8")
     fields = gen.header_line(c).split(" ")
     if rng.random() < corrupt:
         m = rng.random()
